@@ -86,10 +86,13 @@ IsFastaLike(shape) == \A s \in 1..Len(shape) : \A q \in 1..Len(shape[s]) : shape
 \* NameStyle "plain": S1, S2, ... ; "hap": scaffolds alternate between two haplotypes, named as the haplotype-resolved assemblies
 \* are (the haplotype is the part before the first underscore, compared case-insensitively)
 \* "hap3": three haplotypes in turn
+\* "trio": haplotypes named after the parents (Mat / Pat) - haplotype names need not end in a digit
 ScName(s) == IF NameStyle = "hap" THEN (IF s % 2 = 1 THEN "HAP1_SCAFFOLD_" ELSE "hap2_scaffold_") \o ToString(s)
+             ELSE IF NameStyle = "trio" THEN (IF s % 2 = 1 THEN "MAT_SCAFFOLD_" ELSE "pat_scaffold_") \o ToString(s)
              ELSE IF NameStyle = "hap3" THEN (IF s % 3 = 1 THEN "HAP1_SCAFFOLD_" ELSE IF s % 3 = 2 THEN "hap2_scaffold_" ELSE "Hap3_Scaffold_") \o ToString(s)
              ELSE "S" \o ToString(s)
 HapOf(s) == IF NameStyle = "hap" THEN (IF s % 2 = 1 THEN "hap1" ELSE "hap2")
+            ELSE IF NameStyle = "trio" THEN (IF s % 2 = 1 THEN "mat" ELSE "pat")
             ELSE IF NameStyle = "hap3" THEN (IF s % 3 = 1 THEN "hap1" ELSE IF s % 3 = 2 THEN "hap2" ELSE "hap3") ELSE ""
 ConcreteRows(shape, s, naming) ==
   LET sh == shape[s] IN
@@ -98,7 +101,7 @@ ConcreteRows(shape, s, naming) ==
      IF sh[q][1] \in {"g", "h"} THEN GapRow(IF sh[q][1] = "g" THEN "scaffold" ELSE "contig", sh[q][2])
      ELSE IF naming = "fasta" THEN Frag(ScName(s), before + 1, before + sh[q][2], 1)
      ELSE IF naming = "shared" THEN Frag(ScName(s) \o "x", before + 1, before + sh[q][2], IF sh[q][1] = "+" THEN 1 ELSE -1)
-     ELSE Frag(ScName(s) \o (IF NameStyle \in {"hap", "hap3"} THEN "_" ELSE "c") \o ToString(q), 3 * q + 1, 3 * q + sh[q][2], IF sh[q][1] = "+" THEN 1 ELSE -1)]
+     ELSE Frag(ScName(s) \o (IF NameStyle \in {"hap", "hap3", "trio"} THEN "_" ELSE "c") \o ToString(q), 3 * q + 1, 3 * q + sh[q][2], IF sh[q][1] = "+" THEN 1 ELSE -1)]
 Concrete(shape, naming) == [s \in 1..Len(shape) |-> [name |-> ScName(s), rows |-> ConcreteRows(shape, s, naming)]]
 
 \* ------------------------------------------------------------------ state
@@ -165,18 +168,20 @@ TagRoute(g, p, tg) == /\ Tagging /\ Bump /\ ~HasAny(map[g].pieces[p], RouteTags)
 TagTarget(g, p) == /\ Tagging /\ Bump /\ ~HasAny(map[g].pieces[p], {"Target"})
                    /\ \A q \in 1..Len(map[g].pieces) : ~HasAny(map[g].pieces[q], {"Target"})
                    /\ map' = [map EXCEPT ![g].pieces[p].tags = Append(@, "Target")]
-HapSpellings(s) == IF HapOf(s) = "hap1" THEN {"HAP1", "Hap1"} ELSE IF HapOf(s) = "hap2" THEN {"hap2", "HAP2"} ELSE {"Hap3", "HAP3"}
-AllHapTags == {"HAP1", "Hap1", "hap2", "HAP2", "Hap3", "HAP3"}
+HapSpellings(s) == IF HapOf(s) = "hap1" THEN {"HAP1", "Hap1"} ELSE IF HapOf(s) = "hap2" THEN {"hap2", "HAP2"} ELSE IF HapOf(s) = "hap3" THEN {"Hap3", "HAP3"}
+                   ELSE IF HapOf(s) = "mat" THEN {"MAT", "Mat"} ELSE {"pat", "Pat"}
+AllHapTags == {"HAP1", "Hap1", "hap2", "HAP2", "Hap3", "HAP3", "MAT", "Mat", "pat", "Pat"}
 \* haplotype of a Pretext scaffold: its haplotype tag, or else the one in the name of its first piece's source
-TagHapOf(tg) == IF tg \in {"HAP1", "Hap1"} THEN "hap1" ELSE IF tg \in {"hap2", "HAP2"} THEN "hap2" ELSE "hap3"
+TagHapOf(tg) == IF tg \in {"HAP1", "Hap1"} THEN "hap1" ELSE IF tg \in {"hap2", "HAP2"} THEN "hap2" ELSE IF tg \in {"Hap3", "HAP3"} THEN "hap3"
+                ELSE IF tg \in {"MAT", "Mat"} THEN "mat" ELSE "pat"
 \* "Primary ... is used to tag the first 'Painted' chromosome in the curated haplotype": once in a map, on the first piece of a painted
 \* scaffold, and no earlier scaffold of the map belongs to the same haplotype
 HasPrimary == \E g \in 1..Len(map) : \E q \in 1..Len(map[g].pieces) : HasAny(map[g].pieces[q], {"Primary"})
-TagPrimary(g) == /\ Tagging /\ NameStyle \in {"hap", "hap3"} /\ Bump /\ map[g].painted /\ ~HasPrimary
+TagPrimary(g) == /\ Tagging /\ NameStyle \in {"hap", "hap3", "trio"} /\ Bump /\ map[g].painted /\ ~HasPrimary
                  /\ \A h \in 1..(g - 1) : HapOf(map[h].pieces[1].src) # HapOf(map[g].pieces[1].src)
                  /\ \A q \in 1..Len(map[g].pieces) : ~HasAny(map[g].pieces[q], RouteTags \cup {"Target"})
                  /\ map' = [map EXCEPT ![g].pieces[1].tags = Append(@, "Primary")]
-TagHap(g, sp) == /\ Tagging /\ NameStyle \in {"hap", "hap3"} /\ Bump /\ map[g].painted
+TagHap(g, sp) == /\ Tagging /\ NameStyle \in {"hap", "hap3", "trio"} /\ Bump /\ map[g].painted
                  /\ \A q \in 1..Len(map[g].pieces) : Len(map[g].pieces[q].tags) = 0 \/ HasAny(map[g].pieces[q], RouteTags \cup {"Target"})
                  /\ \A q \in 1..Len(map[g].pieces) : ~HasAny(map[g].pieces[q], AllHapTags)
                  /\ sp \in HapSpellings(map[g].pieces[1].src)
